@@ -53,6 +53,11 @@ def run(ctx):
             for n, L in ((4096, None), (8192, None), (4097, None), (4096, 8 * 4096 - 1)) if (big or name == 'md5') else ((4096, None), (4097, None)):
                 r.call(H.content(rnd, n, 0), L) if L else r.call(H.content(rnd, n, 0))
             traces.append(r.trace(dict(kind='long'))); ctx.mark((name, 'long'))
+        # more than 64 KiB in one call, with an explicit bit length (total, not per piece)
+        if name in ('md4', 'md5') or (big and name in ('sha1', 'sha256')):
+            n = 65536 + 200; r = H.Rec(name)
+            r.call(H.content(rnd, n, 0), 8 * n if name == 'md4' else 8 * n - 3)
+            traces.append(r.trace(dict(kind='64k+bitlen'))); ctx.mark((name, '64k+bitlen'))
         # bit length beyond the data: must raise
         r = H.Rec(name)
         for n, over in ((0, 1), (1, 1), (5, 7), (Bb // 8, 1), (Bb // 8 + 3, 8 * Bb), (2, 1 << 20)):
